@@ -1,10 +1,10 @@
 #!/bin/bash
-# run_seed.sh <ID> [tier]: applies seeded/<ID>/patch.diff to /repo, runs ./check <ID>, restores /repo.
+# run_seed.sh <ID> [tier] [seed-dir]: applies seeded/<ID>/patch.diff to /repo, runs ./check <ID>, restores /repo.
 # Prints the check's verdict lines; exit status 0 when the check turned red (caught), 1 when it stayed green.
-id="$1"; tier="${2:-quick}"
+id="$1"; tier="${2:-quick}"; sd="${3:-$1}"
 cd /verif
 if ! git -C /repo diff --quiet; then echo "/repo has local changes; refusing"; exit 2; fi
-git -C /repo apply "/verif/seeded/$id/patch.diff" || { echo "patch does not apply"; exit 2; }
+git -C /repo apply "/verif/seeded/$sd/patch.diff" || { echo "patch does not apply"; exit 2; }
 out=$(./check "$id" --tier "$tier" 2>&1 | grep -E "^\[check\]|VIOLATION|KNOWN-FINDING" | cut -c1-220)
 git -C /repo checkout -- . 
 echo "$out"
